@@ -114,6 +114,11 @@ func (tr *Translator) lookupIdent(name string) tv {
 		if v, ok := f.params[name]; ok {
 			return tv{v, f.paramTy[name]}
 		}
+		if name == "rangebound" && tr.li != nil {
+			if v := rangeBoundVal(tr.li.header); v != nil {
+				return tv{f.val(v), tyInt}
+			}
+		}
 		// hidden loop variables (rangeindex) of an enclosing loop: the header phi of the innermost enclosing loop that has one
 		if name == "rangeindex" {
 			var best *ssa.Phi
@@ -593,6 +598,9 @@ func (tr *Translator) call(c *ECall) tv {
 			tr.fail("has() on non-map")
 		}
 		return tv{f.mapHas(tr.state(), mt, m.t, k.t), tyBool}
+	case "buflen":
+		// number of bytes written so far to a bytes.Buffer / strings.Builder (pointer to it)
+		return tv{Select(tr.stVar("BUF_len", ArrSort(SInt, SInt)), arg(0).t), tyInt}
 	case "held":
 		// the mutex (pointer to it) is held by the executing thread
 		return tv{Select(tr.stVar("held", ArrSort(SInt, SBool)), arg(0).t), tyBool}
@@ -633,6 +641,28 @@ func (tr *Translator) call(c *ECall) tv {
 		saved, savedPhi := tr.cur, tr.phiEnv
 		savedOld := tr.inOld
 		tr.cur, tr.phiEnv, tr.inOld = tr.li.stAtHeader, tr.li.phiSyms, false
+		v := arg(0)
+		tr.cur, tr.phiEnv, tr.inOld = saved, savedPhi, savedOld
+		return v
+	case "atouter":
+		// evaluate in the state at the header of the loop enclosing the current one (current iteration of that loop)
+		if tr.li == nil {
+			tr.fail("atouter() outside a loop context")
+		}
+		var outer *loopInfo
+		for _, eli := range f.inLoop[tr.li.header] {
+			if eli == tr.li || eli.stAtHeader == nil {
+				continue
+			}
+			if outer == nil || len(eli.blocks) < len(outer.blocks) {
+				outer = eli
+			}
+		}
+		if outer == nil {
+			tr.fail("atouter(): no enclosing loop")
+		}
+		saved, savedPhi, savedOld := tr.cur, tr.phiEnv, tr.inOld
+		tr.cur, tr.phiEnv, tr.inOld = outer.stAtHeader, outer.phiSyms, false
 		v := arg(0)
 		tr.cur, tr.phiEnv, tr.inOld = saved, savedPhi, savedOld
 		return v
